@@ -179,6 +179,20 @@ func (t *dateWithUTCTime) MarshalText() ([]byte, error) {
 	return []byte(s), nil
 }
 
+// MarshalXMLAttr leaves out the attribute of a zero time: omitempty has no
+// effect on a struct, and "00010101T000000Z" isn't an open bound of a time
+// range but the year 1.
+func (t dateWithUTCTime) MarshalXMLAttr(name xml.Name) (xml.Attr, error) {
+	if time.Time(t).IsZero() {
+		return xml.Attr{}, nil
+	}
+	b, err := t.MarshalText()
+	if err != nil {
+		return xml.Attr{}, err
+	}
+	return xml.Attr{Name: name, Value: string(b)}, nil
+}
+
 // Request variant of https://tools.ietf.org/html/rfc4791#section-9.6
 type calendarDataReq struct {
 	XMLName xml.Name `xml:"urn:ietf:params:xml:ns:caldav calendar-data"`
